@@ -16,6 +16,16 @@ package cidlink
 //@   ensures[C05,C06] lp.Prefix.Version == 1 ==> unbox(l, "Link").Cid.str == cid.cidstr(1, lp.Prefix.Codec, multihash.mhseq(hash.bsrc(hashsum), usedlen(lp.Prefix.MhType, lp.Prefix.MhLength, len(hashsum)), lp.Prefix.MhType), io.blen(multihash.mhseq(hash.bsrc(hashsum), usedlen(lp.Prefix.MhType, lp.Prefix.MhLength, len(hashsum)), lp.Prefix.MhType)))
 //@   ensures[C05,C06] lp.Prefix.Version == 0 ==> unbox(l, "Link").Cid.str == cid.cidstr(0, 112, multihash.mhseq(hash.bsrc(hashsum), usedlen(lp.Prefix.MhType, lp.Prefix.MhLength, len(hashsum)), lp.Prefix.MhType), io.blen(multihash.mhseq(hash.bsrc(hashsum), usedlen(lp.Prefix.MhType, lp.Prefix.MhLength, len(hashsum)), lp.Prefix.MhType)))
 
+// ---- cidlink.Memory: every write gets a buffer of its own; a read opens exactly what was committed ----
+//@ func (*Memory).OpenWrite(lnkCtx) (w, c, err)
+//@   requires store != nil
+//@   ensures[C05,C17] err == nil && w != nil && c != nil && fresh(w)
+// (nosafety: Cid.Hash parses the CID's own bytes; that a Cid value is well formed is go-cid's invariant)
+//@ func (*Memory).OpenRead(lnkCtx, lnk) (r, err)
+//@   nosafety
+//@   requires store != nil && lnk != nil
+//@   ensures[C05,C17] !dyntype(lnk, "Link") ==> err != nil && r == nil
+
 // ---- the three choosers: codec and hash function are taken from the link prototype alone ----
 
 //@ func LinkSystemUsingMulticodecRegistry$1(lp) (e, err)
